@@ -84,8 +84,13 @@ type seriesOutcome struct {
 }
 
 func (c *cluster) series(ctx context.Context, req *storepb.SeriesRequest) *seriesOutcome {
+	return c.seriesWith(ctx, req, nil)
+}
+
+// seriesWith is series with a hook run before the client accepts its n-th response frame.
+func (c *cluster) seriesWith(ctx context.Context, req *storepb.SeriesRequest, onSend func(n int) error) *seriesOutcome {
 	n := c.beginRequest()
-	srv := &collectServer{ctx: ctx}
+	srv := &collectServer{ctx: ctx, onSend: onSend}
 	err := c.proxy.Series(req, srv)
 	return &seriesOutcome{Req: n, Err: err, Warnings: srv.warnings, Result: srv.canonical(), Srv: srv}
 }
